@@ -21,6 +21,15 @@ func zzKey(n int) []byte {
 	return k
 }
 
+// zzKeyLen: with VARLEN keys have 1..kl bytes, so that a key may be a strict prefix of another
+// (its value then sits in the value slot of a branch node); otherwise exactly kl bytes.
+func zzKeyLen(kl int) int {
+	if zzBound("VARLEN") != 0 {
+		return 1 + zzChoice(kl)
+	}
+	return kl
+}
+
 // zzVal draws a value whose length class decides whether the leaf is embedded in its parent
 // (< 32 bytes encoded) or referenced by hash.
 func zzVal() []byte {
@@ -69,7 +78,7 @@ func zzH_C06_order() {
 	kl := zzBound("KEYLEN")
 	keys, vals := make([][]byte, n), make([][]byte, n)
 	for i := range keys {
-		keys[i], vals[i] = zzKey(kl), zzVal()
+		keys[i], vals[i] = zzKey(zzKeyLen(kl)), zzVal()
 	}
 	zzDistinct(keys)
 	fwd, rev, rot := make([]int, n), make([]int, n), make([]int, n)
@@ -111,11 +120,11 @@ func zzH_C06_delete() {
 	keys, vals := make([][]byte, n), make([][]byte, n)
 	t := NewEmpty(nil)
 	for i := range keys {
-		keys[i], vals[i] = zzKey(kl), zzVal()
+		keys[i], vals[i] = zzKey(zzKeyLen(kl)), zzVal()
 		t.Update(keys[i], vals[i])
 	}
 	// delete some key (possibly absent, possibly one of the inserted ones), by Delete or by empty value
-	d := zzKey(kl)
+	d := zzKey(zzKeyLen(kl))
 	if zzNondetBool() {
 		zzAssert(t.Delete(d) == nil, "delete cannot fail in memory")
 	} else {
@@ -125,7 +134,7 @@ func zzH_C06_delete() {
 	want := zzFresh(append(append([][]byte{}, keys...), d), append(append([][]byte{}, vals...), nil))
 	zzAssert(got == want, "root after a deletion is the root of the surviving key-value set")
 	// reads agree with the set
-	q := zzKey(kl)
+	q := zzKey(zzKeyLen(kl))
 	v, err := t.Get(q)
 	zzAssert(err == nil, "get cannot fail in memory")
 	var model []byte
